@@ -25,66 +25,72 @@ def run(chk):
                'proved bit-precisely for Float32/Float64 (fl(a-b) <= 0 iff a <= b)')
     chk.assume('no overflow/underflow over the stated ranges (Ei, Ef in 1e-3..1e4 meV, L in 0.1..1e3 m)')
     mod = kit.load(MOD)
-    for kname, (ename, Lfix, Lvar, sign) in GEOM.items():
-        chk.function(MOD, kname)
-        fn = getattr(mod, kname)
-        names = ['tof', 'L1', 'L2', ename]
-        dimsof = {'tof': 'time', 'L1': 'length', 'L2': 'length', ename: 'energy'}
-        # operand shapes: the proofs are element-generic, sound only if the code does not branch on operand shapes -- so the float64
-        # case is repeated with 1-d operands, scalar geometry, and each operand along a dimension of its own
-        variants = [(combo, '', None) for combo in itertools.product((F64, F32), repeat=4)]
-        variants.append(((F64,) * 4, '; shape: all 1-d', lambda n: ('row',)))
-        variants.append(((F64,) * 4, '; shape: scalar geometry and energy, 1-d tof', lambda n: ('tof',) if n == 'tof' else ()))
-        variants.append(((F64,) * 4, '; shape: per-pixel geometry, 2-d tof', lambda n: ('row', 'tof') if n == 'tof' else ('row',)))
-        for nm in names:
-            variants.append(((F64,) * 4, f'; shape: {nm} along its own dim', lambda n, nm=nm: ('own',) if n == nm else ('row',)))
-        for combo, stag, policy in variants:
-            dts = dict(zip(names, combo))
-            tag = ','.join(f'{a}:{dts[a]}' for a in names) + stag
-
-            def mk():
-                with kit.dims_policy(policy):
-                    return {a: arg(a, dimsof[a], dtype=dts[a]) for a in names}
-
-            a = mk()
-            base = [a[n].val > 0 for n in ('L1', 'L2', ename)]  # tof unconstrained (either side of the boundary)
-            paths = chk.explore(lambda: fn(**mk()), base=base + kit.CONST_AXIOMS,
-                                catch=(UnitError, DTypeError, DimensionError, ValueError, TypeError))
-            pre = f'{MOD}:{kname}'
-            if combo == (F64,) * 4 and not stag:
-                chk.canary(f'{pre}/requires[{tag}]', base + kit.CONST_AXIOMS)
-            for i, p in enumerate(paths):
-                ptag = tag if len(paths) == 1 else f'{tag}/path{i}'
-                meta = {'kernel': kname, 'dtypes': {k: str(v) for k, v in dts.items()}}
-                if p.kind == 'raise':
-                    chk.decided(f'{pre}/no-raise[{ptag}]', False, detail=f'{type(p.value).__name__}: {p.value}', meta=meta)
-                    continue
-                chk.decided(f'{pre}/no-raise[{ptag}]', True)
-                r = p.value
-                hy = hyps_of(p, base)
-                # --- spec, from the statement: a neutron flies L1 at Ei and L2 at Ef
-                Ei, Ef, vi, vf = (z3.Real(n) for n in ('E_i', 'E_f', 'v_i', 'v_f'))
-                phys = [Ei > 0, Ef > 0, vi > 0, vf > 0, vi * vi * M == 2 * Ei, vf * vf * M == 2 * Ef]
-                fixed = Ei if sign > 0 else Ef
-                vfix = vi if sign > 0 else vf
-                given = [a[ename].si == fixed]
-                arrival = a['tof'].si == a['L1'].si / vi + a['L2'].si / vf
-                t0 = a[Lfix].si / vfix   # flight time of the fixed-energy leg
-                # ghost lemma: the sqrt the code takes is 1/v of the fixed leg
-                chk.prove(f'{pre}/energy-conservation[{ptag}]', hy + phys + given + [arrival],
-                          z3.And(z3.Not(r.buf.nan), r.buf.defd, r.si == Ei - Ef), meta=meta, timeout=60)
-                chk.prove(f'{pre}/nan-iff-at-or-before-t0[{ptag}]', hy + phys + given,
-                          r.buf.nan == (a['tof'].si <= t0), meta=meta, timeout=60)
-                chk.prove(f'{pre}/never-infinite[{ptag}]', hy + phys + given,
-                          z3.Implies(z3.Not(r.buf.nan), r.buf.defd), meta=meta, timeout=60)
-                chk.decided(f'{pre}/unit[{ptag}]', r.unit == a[ename].unit,
-                            detail=f'got {r.unit}, expected the unit of the supplied energy {a[ename].unit}', meta=meta)
-                want = F32 if dts[ename] == F32 and dts['tof'] == F32 else F64
-                chk.decided(f'{pre}/dtype[{ptag}]', r.dtype == want, detail=f'got {r.dtype}, contract {want}', meta=meta)
-                bad = kit.frame_violations(p)
-                chk.decided(f'{pre}/frame[{ptag}]', not bad, detail=f'writes to non-fresh buffers: {bad}', meta=meta)
+    for kname in GEOM:
+        chk.section(f'{kname}: dtype grid, shapes', kernel_contract, mod, kname)
     graph(chk)
     fp_boundary(chk)
+    native_probe(chk)
+
+
+def kernel_contract(chk, mod, kname):
+    ename, Lfix, Lvar, sign = GEOM[kname]
+    chk.function(MOD, kname)
+    fn = getattr(mod, kname)
+    names = ['tof', 'L1', 'L2', ename]
+    dimsof = {'tof': 'time', 'L1': 'length', 'L2': 'length', ename: 'energy'}
+    # operand shapes: the proofs are element-generic, sound only if the code does not branch on operand shapes -- so the float64
+    # case is repeated with 1-d operands, scalar geometry, and each operand along a dimension of its own
+    variants = [(combo, '', None) for combo in itertools.product((F64, F32), repeat=4)]
+    variants.append(((F64,) * 4, '; shape: all 1-d', lambda n: ('row',)))
+    variants.append(((F64,) * 4, '; shape: scalar geometry and energy, 1-d tof', lambda n: ('tof',) if n == 'tof' else ()))
+    variants.append(((F64,) * 4, '; shape: per-pixel geometry, 2-d tof', lambda n: ('row', 'tof') if n == 'tof' else ('row',)))
+    for nm in names:
+        variants.append(((F64,) * 4, f'; shape: {nm} along its own dim', lambda n, nm=nm: ('own',) if n == nm else ('row',)))
+    for combo, stag, policy in variants:
+        dts = dict(zip(names, combo))
+        tag = ','.join(f'{a}:{dts[a]}' for a in names) + stag
+
+        def mk():
+            with kit.dims_policy(policy):
+                return {a: arg(a, dimsof[a], dtype=dts[a]) for a in names}
+
+        a = mk()
+        base = [a[n].val > 0 for n in ('L1', 'L2', ename)]  # tof unconstrained (either side of the boundary)
+        paths = chk.explore(lambda: fn(**mk()), base=base + kit.CONST_AXIOMS,
+                            catch=(UnitError, DTypeError, DimensionError, ValueError, TypeError))
+        pre = f'{MOD}:{kname}'
+        if combo == (F64,) * 4 and not stag:
+            chk.canary(f'{pre}/requires[{tag}]', base + kit.CONST_AXIOMS)
+        for i, p in enumerate(paths):
+            ptag = tag if len(paths) == 1 else f'{tag}/path{i}'
+            meta = {'kernel': kname, 'dtypes': {k: str(v) for k, v in dts.items()}}
+            if p.kind == 'raise':
+                chk.decided(f'{pre}/no-raise[{ptag}]', False, detail=f'{type(p.value).__name__}: {p.value}', meta=meta)
+                continue
+            chk.decided(f'{pre}/no-raise[{ptag}]', True)
+            r = p.value
+            hy = hyps_of(p, base)
+            # --- spec, from the statement: a neutron flies L1 at Ei and L2 at Ef
+            Ei, Ef, vi, vf = (z3.Real(n) for n in ('E_i', 'E_f', 'v_i', 'v_f'))
+            phys = [Ei > 0, Ef > 0, vi > 0, vf > 0, vi * vi * M == 2 * Ei, vf * vf * M == 2 * Ef]
+            fixed = Ei if sign > 0 else Ef
+            vfix = vi if sign > 0 else vf
+            given = [a[ename].si == fixed]
+            arrival = a['tof'].si == a['L1'].si / vi + a['L2'].si / vf
+            t0 = a[Lfix].si / vfix   # flight time of the fixed-energy leg
+            # ghost lemma: the sqrt the code takes is 1/v of the fixed leg
+            chk.prove(f'{pre}/energy-conservation[{ptag}]', hy + phys + given + [arrival],
+                      z3.And(z3.Not(r.buf.nan), r.buf.defd, r.si == Ei - Ef), meta=meta, timeout=60)
+            chk.prove(f'{pre}/nan-iff-at-or-before-t0[{ptag}]', hy + phys + given,
+                      r.buf.nan == (a['tof'].si <= t0), meta=meta, timeout=60)
+            chk.prove(f'{pre}/never-infinite[{ptag}]', hy + phys + given,
+                      z3.Implies(z3.Not(r.buf.nan), r.buf.defd), meta=meta, timeout=60)
+            chk.decided(f'{pre}/unit[{ptag}]', r.unit == a[ename].unit,
+                        detail=f'got {r.unit}, expected the unit of the supplied energy {a[ename].unit}', meta=meta)
+            want = F32 if dts[ename] == F32 and dts['tof'] == F32 else F64
+            chk.decided(f'{pre}/dtype[{ptag}]', r.dtype == want, detail=f'got {r.dtype}, contract {want}', meta=meta)
+            bad = kit.frame_violations(p)
+            chk.decided(f'{pre}/frame[{ptag}]', not bad, detail=f'writes to non-fresh buffers: {bad}', meta=meta)
 
 
 def graph(chk):
@@ -107,9 +113,30 @@ def fp_boundary(chk):
         chk.prove(f'lemma/fp-boundary-exact[{name}]', fin, z3.fpLEQ(d, z3.FPVal(0, sort)) == z3.fpLEQ(a, b), timeout=120)
 
 
+def native_probe(chk):
+    """[B] both real kernels on 72 (geometry, energy/length/time unit) combinations per dtype assignment: energy conservation against a
+    40-digit reference, unit, dtype, NaN below t0 and a number above, no infinity and monotone NaN-ness on the 49 doubles around t0"""
+    combos = list(itertools.product(('float64', 'float32'), repeat=4))
+    if chk.tier == 'quick':
+        combos = [combos[0], combos[-1], combos[5], combos[10], combos[3], combos[12]]
+    fails, n = [], 0
+    for kname, (ename, Lfix, Lvar, sign) in GEOM.items():
+        for combo in combos:
+            dts = dict(zip(['tof', 'L1', 'L2', ename], combo))
+            r = replay({'obligation': f'C05/{MOD}:{kname}/native', 'meta': {'kernel': kname, 'dtypes': dts}})
+            n += r.get('tried', 72)
+            if r.get('reproduced'):
+                fails.append({'id': f'{kname}-{"-".join(combo)}', 'kernel': kname, 'dtypes': dts, **{k: v for k, v in r.items() if k != 'reproduced'}})
+    chk.bounded_check('native-kernel-probe', 'real inelastic kernels vs mpmath reference (40 digits) incl. the NaN boundary', f'{n} (geometry x unit) cases over '
+                      f'{len(combos)} dtype assignments x 2 kernels', n, fails[:3])
+
+
 def replay(rec):
     import itertools
     import mpmath as mp
+    if '/bounded/native-kernel-probe/' in rec['obligation']:
+        f = rec.get('meta', {}).get('replay') or {}
+        return replay({'obligation': 'x', 'meta': {'kernel': f.get('kernel'), 'dtypes': f.get('dtypes', {})}})
     import scipp as sc
     import scipp.constants
     from vf.realrun import real_module
